@@ -5,7 +5,9 @@ import json
 import os
 import shutil
 
+import subprocess
 V = os.path.dirname(os.path.dirname(os.path.abspath(__file__)))
+HEAD = subprocess.run(["git", "-C", "/repo", "rev-parse", "--short", "HEAD"], capture_output=True, text=True).stdout.strip()
 rows = []
 for f in sorted(glob.glob(os.path.join(V, "work", "mutres", "C*_*m*.json"))):
     r = json.load(open(f))
@@ -13,8 +15,11 @@ for f in sorted(glob.glob(os.path.join(V, "work", "mutres", "C*_*m*.json"))):
     pid, mk = name.split("_")
     src = ("/tmp/mut2_%s/out/%s" % (pid, mk[2:]) if mk.startswith("r2") else
            "/tmp/mut3_%s/out/%s" % (pid, mk[2:]) if mk.startswith("r3") else
-           "/tmp/mut5_%s/out/%s" % (pid, mk[2:]) if mk.startswith("r5") else "/tmp/mut_%s/out/%s" % (pid, mk))
+           "/tmp/mut5_%s/out/%s" % (pid, mk[2:]) if mk.startswith("r5") else
+           "/tmp/mut6_%s/out/%s" % (pid, mk[2:]) if mk.startswith("r6") else "/tmp/mut_%s/out/%s" % (pid, mk))
     confirmed = r.get("demo_clean_rc") == 0 and r.get("demo_mutant_rc") == 1 and r.get("tests_failed") == 0 and r.get("tests_passed", 0) >= 129
+    if os.path.exists(os.path.join(V, "seeded", os.path.basename(f)[:-5], "meta.json")) and not os.path.isdir(src):
+        continue   # kept in an earlier round, its scratch directory is gone
     if not confirmed or not os.path.isdir(src):
         rows.append((name, "NOT CONFIRMED", r.get("demo_clean_rc"), r.get("demo_mutant_rc"), r.get("tests_tail")))
         continue
@@ -35,7 +40,7 @@ for f in sorted(glob.glob(os.path.join(V, "work", "mutres", "C*_*m*.json"))):
         checks[c] = {"exit": v["rc"], "violations": v["violations"], "only_no_failing_input": v.get("nofail_only"),
                      "first_detail": (v.get("detail") or [""])[0][:300], "replay_on_changed_tree": v.get("replay_mutant_rc"),
                      "replay_on_clean_tree": v.get("replay_clean_rc"), "wall_s": v.get("wall_s")}
-    meta = {"property": pid, "base_commit": old.get("base_commit", "dbd141c"), "summary": notes.get("summary"), "needs": notes.get("needs"), "files": notes.get("files"),
+    meta = {"property": pid, "base_commit": old.get("base_commit", HEAD), "summary": notes.get("summary"), "needs": notes.get("needs"), "files": notes.get("files"),
             "confirmed": {"demo_exit_on_clean_tree": 0, "demo_exit_with_change": 1, "existing_tests_passed_with_change": r.get("tests_passed"),
                           "existing_tests_failed_with_change": 0,
                           "how": "tools/evalmut.py: scratch git worktree of /repo HEAD, git apply patch.diff, PYTHONPATH=<tree>/src demo.py, pytest tests, VERIF_REPO=<tree> ./check <id> --tier quick in a scratch copy of /verif, replay of the first violation on both trees"},
